@@ -730,6 +730,137 @@ impl Part for ContextFree {
     }
 }
 
+// ---------------------------------------------------------------------------------------
+// H. decoding is local: what a byte decodes to does not depend on the bytes around it
+// ---------------------------------------------------------------------------------------
+/// A wire string is built from marker segments whose items are table entries of that segment's codepage, caret-free ASCII
+/// and runs of the bytes 0x80 / 0xFF (never a lead byte in any of the ten codepages; undefined in most, so the reference
+/// tables are silent about them). It is cut at an item boundary: decode(whole) must equal decode(left) + decode(marker of the
+/// segment the cut falls in + right). No table knowledge is used - bytes that are no character of the codepage must not eat,
+/// move or drop their neighbours; where the right part is reference-defined it must also equal the reference decoding.
+#[derive(Clone, Debug)]
+pub enum LocalItem {
+    /// position in the table as a 32-bit fraction (index = raw * len >> 32)
+    Entry(u32),
+    Ascii(u8),
+    Strays(u8, usize),
+}
+
+#[derive(Clone, Debug)]
+pub struct LocalCase {
+    /// (index into the ten letter markers, items)
+    pub segs: Vec<(usize, Vec<LocalItem>)>,
+    pub cut: u32,
+}
+
+pub struct Locality;
+impl Locality {
+    /// (wire pieces, marker of the segment each piece belongs to)
+    fn pieces(c: &LocalCase) -> Vec<(Vec<u8>, u8)> {
+        let mut out = vec![];
+        for (m, items) in &c.segs {
+            let (letter, name) = MARKERS[*m % 10];
+            let t = cp::table(name);
+            out.push((vec![b'^', letter], letter));
+            for it in items {
+                let bytes = match it {
+                    LocalItem::Entry(raw) => t.entries[((*raw as u64 * t.entries.len() as u64) >> 32) as usize].0.clone(),
+                    LocalItem::Ascii(b) => vec![if *b == b'^' { b'~' } else { *b }],
+                    LocalItem::Strays(b, n) => vec![*b; *n],
+                };
+                out.push((bytes, letter));
+            }
+        }
+        out
+    }
+}
+impl Part for Locality {
+    type Case = LocalCase;
+    fn name(&self) -> &'static str {
+        "decoding-is-local"
+    }
+    fn check(&self, c: &LocalCase, ev: &mut Local) -> Result<(), Fail> {
+        let pieces = Self::pieces(c);
+        if pieces.len() < 2 {
+            return Ok(());
+        }
+        // cut in front of piece k (k >= 1); a cut in front of a marker piece needs no repeated marker
+        let k = 1 + ((c.cut as u64 * (pieces.len() - 1) as u64) >> 32) as usize;
+        let whole: Vec<u8> = pieces.iter().flat_map(|p| p.0.clone()).collect();
+        let left: Vec<u8> = pieces[..k].iter().flat_map(|p| p.0.clone()).collect();
+        let mut right: Vec<u8> = if pieces[k].0.first() == Some(&b'^') { vec![] } else { vec![b'^', pieces[k].1] };
+        right.extend(pieces[k..].iter().flat_map(|p| p.0.clone()));
+        let (dw, dl, dr) = (decode(&whole)?, decode(&left)?, decode(&right)?);
+        ensure!(
+            dw == format!("{dl}{dr}"),
+            "c10:decoding-depends-on-neighbouring-bytes",
+            "{} decodes to {dw:?}, but its left part {} decodes to {dl:?} and the rest {} to {dr:?}",
+            hex(&whole),
+            hex(&left),
+            hex(&right)
+        );
+        if let Some(r) = ref_decode(&right) {
+            ensure!(dr == r, "c10:marker-table", "{} decodes to {dr:?}, reference decoder says {r:?}", hex(&right));
+            ev.class("right part reference-defined");
+        }
+        let strays = c.segs.iter().flat_map(|s| s.1.iter()).filter_map(|i| if let LocalItem::Strays(_, n) = i { Some(*n) } else { None }).max().unwrap_or(0);
+        ev.class(if strays >= 5 { "a run of 5 or more undefined bytes" } else if strays > 0 { "undefined bytes" } else { "defined bytes only" });
+        if strays > 0 {
+            ev.nontrivial(&whole);
+        }
+        if ev.wants_sample() && strays > 0 && whole.len() < 24 {
+            ev.sample(|| json!({"wire": hex(&whole), "cut_at": left.len(), "decoded": dw}));
+        }
+        Ok(())
+    }
+    fn to_json(&self, c: &LocalCase) -> Value {
+        let segs: Vec<Value> = c
+            .segs
+            .iter()
+            .map(|(m, items)| {
+                let items: Vec<Value> = items
+                    .iter()
+                    .map(|i| match i {
+                        LocalItem::Entry(raw) => json!({"entry": raw}),
+                        LocalItem::Ascii(b) => json!({"ascii": b}),
+                        LocalItem::Strays(b, n) => json!({"stray": b, "n": n}),
+                    })
+                    .collect();
+                json!({"marker": m, "items": items})
+            })
+            .collect();
+        json!({"segs": segs, "cut": c.cut})
+    }
+    fn from_json(&self, v: &Value) -> Option<LocalCase> {
+        let mut segs = vec![];
+        for s in v.get("segs")?.as_array()? {
+            let mut items = vec![];
+            for i in s.get("items")?.as_array()? {
+                if let Some(e) = i.get("entry") {
+                    items.push(LocalItem::Entry(e.as_u64()? as u32));
+                } else if let Some(a) = i.get("ascii") {
+                    items.push(LocalItem::Ascii(a.as_u64()? as u8));
+                } else {
+                    items.push(LocalItem::Strays(i.get("stray")?.as_u64()? as u8, i.get("n")?.as_u64()? as usize));
+                }
+            }
+            segs.push((s.get("marker")?.as_u64()? as usize, items));
+        }
+        Some(LocalCase { segs, cut: v.get("cut")?.as_u64()? as u32 })
+    }
+}
+
+fn local_strategy() -> impl Strategy<Value = LocalCase> {
+    let item = prop_oneof![
+        4 => any::<u32>().prop_map(LocalItem::Entry),
+        2 => (0x20u8..0x7F).prop_map(LocalItem::Ascii),
+        3 => (prop::sample::select(vec![0x80u8, 0xFF]), prop_oneof![3 => 1usize..5, 3 => 5usize..40, 1 => 40usize..300]).prop_map(|(b, n)| LocalItem::Strays(b, n)),
+    ];
+    // the double-byte codepages (indices 6..10) get half the segments
+    let marker = prop_oneof![1 => 0usize..6, 1 => 6usize..10];
+    (proptest::collection::vec((marker, proptest::collection::vec(item, 0..6)), 1..4), any::<u32>()).prop_map(|(segs, cut)| LocalCase { segs, cut })
+}
+
 pub fn parts() -> Vec<Box<dyn DynPart>> {
     vec![
         Box::new(DecodeSweep),
@@ -738,6 +869,7 @@ pub fn parts() -> Vec<Box<dyn DynPart>> {
         Box::new(Unrepresentable),
         Box::new(MarkerPairs),
         Box::new(ContextFree),
+        Box::new(Locality),
         Box::new(RandomBytes),
         Box::new(RandomUnicode),
     ]
@@ -751,7 +883,7 @@ pub fn run(run: &mut Run) {
          constructed from 1-6 marker segments with reference-encoded characters, biased to double-byte trail byte 0x5E, \
          BOM look-alikes, shared characters, redundant markers; (C) caret-free text over the union repertoire ({} characters) \
          round-tripped and cross-read by an independent reference decoder; (D) one character outside every codepage between \
-         encodable neighbours; (E) complete: every byte pair after every marker (11 x 65536); (F) random bytes / random Unicode. \
+         encodable neighbours; (E) complete: every byte pair after every marker (11 x 65536); (F) random bytes / random Unicode; (H) locality: wire strings of table entries, ASCII and runs of undefined bytes (0x80 / 0xFF, 1..300 of them) cut at an item boundary decode to the concatenation of what the two parts decode to. \
          Non-trivial = contains at least one non-ASCII character (A, E: reference-defined entries, counted exactly).",
         cp::repertoire().len()
     );
@@ -786,6 +918,9 @@ pub fn run(run: &mut Run) {
     run.prop(&Unrepresentable, strat, n);
     // E
     run.enumerate(&MarkerPairs, 11 * 256, true, |i| Some(PairCase::Block(MARKERS[(i / 256) as usize].0, (i % 256) as u8)));
+    // H
+    let n = run.budget(200_000, 10_000_000);
+    run.prop(&Locality, local_strategy(), n);
     // F
     let n = run.budget(300_000, 20_000_000);
     run.prop(&RandomBytes, bytes_strategy(), n);
